@@ -159,7 +159,11 @@ class BIFReader(object):
             + Suppress(")")
         )
         optional_expr = Suppress("(") + OneOrMore(word_expr2) + Suppress(")")
-        probab_attributes = optional_expr | Suppress("table") | Suppress("default")
+        probab_attributes = (
+            optional_expr
+            | Suppress(pp.Keyword("table"))
+            | Suppress(pp.Keyword("default"))
+        )
         cpd_expr = probab_attributes + OneOrMore(num_expr)
 
         return probability_expr, cpd_expr
